@@ -22,7 +22,10 @@ func newSecureAPI(ctx *Context, next http.Handler) http.Handler {
 		if rCtx != nil {
 			r = rCtx
 		}
-		if route != nil && !route.NeedsAuth() {
+		// MatchedRoute.Authenticator is also set by an attempt that was rejected, so it
+		// cannot tell whether the request still needs to authenticate; Authorize itself
+		// reuses a principal that was obtained earlier in the request.
+		if route != nil && !route.HasAuth() {
 			next.ServeHTTP(rw, r)
 			return
 		}
